@@ -2,6 +2,7 @@
 from __future__ import annotations
 
 import ast
+import re
 
 from ..engine import AnalysisError, MechanismMissing, PropertySpec, norm
 from ..pyutil import call_name, calls, const_str, dotted, is_name, literal, parent, subscript_key, walk_local
@@ -297,8 +298,11 @@ STRUCTURE_API = ("is_op", "dep", "n_dep", "op", "is_binary", "is_unary")
     "a shortcut that reads the constant and the sign off the node maps some loops to other elements than the SX/MX evaluation does",
 )
 def r12_6(ctx, rep):
+    loop_subscripts_evaluated(ctx, rep, "R12.6")
+
+
+def loop_subscripts_evaluated(ctx, rep, R):
     from ..pyutil import inlined
-    R = "R12.6"
     ms = ctx.methods(GEN, "ForLoop", R)
     fn = ms.get("register_indexed_symbol")
     if fn is None:
@@ -322,11 +326,32 @@ def r12_6(ctx, rep):
             n += 1
             v = inlined(st.value, body, keep=names)
             txt = norm(v)
-            evaluated = any(isinstance(c, ast.Call) and (call_name(c) or "").endswith("Function") and any("index_expr" in norm(a) for a in c.args) for c in ast.walk(v)) \
-                and (".call(" in txt or "F(" in txt or "(self.values" in txt)
-            ok = txt == "self.values" or evaluated
+            # "evaluated over all the loop's values": a call whose callee is (derived from) ca.Function(..., [<subscript expression>]) and whose
+            # arguments contain self.values as a whole (not one element of it)
+            evaluated = False
+            for c in ast.walk(v):
+                if not isinstance(c, ast.Call):
+                    continue
+                callee_has_fn = any(isinstance(k, ast.Call) and (call_name(k) or "").endswith("Function") and any("index_expr" in norm(a) for a in k.args)
+                                    for k in ast.walk(c.func))
+                if not callee_has_fn:
+                    continue
+                whole = False
+                for a in c.args:
+                    for x in ast.walk(a):
+                        if isinstance(x, ast.Attribute) and norm(x) == "self.values":
+                            par = getattr(x, "_parent", None)
+                            # ast_copy'd nodes carry no parent links: look for a subscript of self.values textually instead
+                            whole = True
+                    if "self.values[" in norm(a):
+                        whole = False
+                evaluated = evaluated or whole
+            # every other use of self.values in the value must be inside that evaluation: `self.values + <offset>` is an extrapolation
+            extrapolated = bool(re.search(r"self\.values\s*[-+*]", txt)) or bool(re.search(r"[-+*]\s*self\.values", txt))
+            ok = txt == "self.values" or (evaluated and not extrapolated)
             rep.ob(R, site, "subscript values `%s = ...`" % st.targets[0].id, ok,
-                   "`%s` is neither the loop's own values nor the evaluation of a ca.Function of the subscript expression over them" % norm(st)[:90])
+                   "`%s` is neither the loop's own values nor the evaluation of a ca.Function of the subscript expression over ALL of them (evaluating it "
+                   "at one value and extrapolating is exact for `i + c` only: x[2*i], x[n+1-i] select other elements)" % norm(st)[:90])
     if n < 2:
         raise MechanismMissing(R, "expected the two definitions of the index array (plain loop variable / general expression), found %d" % n)
 
